@@ -1,7 +1,9 @@
 // C02 harness: drives the real DensitySubGrid::interact through the line protocol.
 //   blk  ax ay az sx sy sz nx ny nz      -> new DensitySubGrid(box, ncell)
 //   cells m mul add (n xH xHe){m}         -> cell c gets palette entry ((c*mul+add) % m)
-//   pkt  px py pz dx dy dz tau sH sHe sX w nu inDir id ex
+//   pkt  px py pz dx dy dz tau sH sHe sX w nu inDir id ex     -> interact
+//   prp  (same fields)                                          -> propagate
+//   cod  (same fields)                                          -> compute_optical_depth
 //        (id: serial number, ignored; ex = 1: the generator guarantees that every geometric
 //         operation of this packet is exact in doubles -> the oracle applies no tolerance)
 // One answer line per op line (compared with the Lean model), plus "ORACLE line=<n> ..." lines
@@ -131,7 +133,9 @@ int main() {
         iv.set_ionic_fraction(ION_He_n, dbl(w[6 + 3 * k]));
       }
       std::cout << "cells " << m << "\n";
-    } else if (w[0] == "pkt" && w.size() == 16 && grid) {
+    } else if ((w[0] == "pkt" || w[0] == "prp" || w[0] == "cod") && w.size() == 16 && grid) {
+      // 0: interact, 1: propagate, 2: compute_optical_depth
+      const int mode = w[0] == "pkt" ? 0 : (w[0] == "prp" ? 1 : 2);
       const double p0[3] = {dbl(w[1]), dbl(w[2]), dbl(w[3])};
       const double dir[3] = {dbl(w[4]), dbl(w[5]), dbl(w[6])};
       const double tau_target = dbl(w[7]);
@@ -165,13 +169,24 @@ int main() {
       photon.set_photoionization_cross_section(ION_He_n, sHe);
       photon.set_photoionization_cross_section(ionP, 1.);
 
-      const int_fast32_t out = grid->interact(photon, in_dir);
+      // the cell propagate / compute_optical_depth start in (they do not pin the position):
+      // the real get_start_index on the position as handed over
+      int_fast32_t start_cell_nopin = -1;
+      if (mode != 0) {
+        CoordinateVector< int_fast32_t > ti;
+        start_cell_nopin = grid->get_start_index(photon.get_position() - grid->_anchor, in_dir, ti);
+      }
+      const int_fast32_t out = mode == 0   ? grid->interact(photon, in_dir)
+                               : mode == 1 ? grid->propagate(photon, in_dir)
+                                           : grid->compute_optical_depth(photon, in_dir);
 
       const CoordinateVector<> pf = photon.get_position();
       const double tau_left = photon.get_target_optical_depth();
       std::ostringstream ans;
-      ans << "pkt out=" << out << " fin=1 pos=" << showF(pf[0]) << " " << showF(pf[1]) << " "
-          << showF(pf[2]) << " tau=" << showF(tau_left) << " nv=" << visit_log.size();
+      ans << w[0] << " out=" << out << " fin=1 pos=" << showF(pf[0]) << " " << showF(pf[1]) << " "
+          << showF(pf[2]) << " tau=" << showF(tau_left);
+      if (mode == 0)
+        ans << " nv=" << visit_log.size();
       std::ostringstream bad;
       std::vector< double > path(ntot, 0.);
       std::vector< int > nvisit(ntot, 0);
@@ -196,14 +211,18 @@ int main() {
       long double s0[3];
       for (int a = 0; a < 3; ++a) {
         s0[a] = (long double)p0[a] - (long double)box[a];
-        if (off[in_dir][a] == -1)
+        // (propagate and compute_optical_depth use the position as handed over)
+        if (mode == 0 && off[in_dir][a] == -1)
           s0[a] = 0.;
-        if (off[in_dir][a] == 1)
+        if (mode == 0 && off[in_dir][a] == 1)
           s0[a] = (long double)nc[a] * grid->_cell_size[a];
       }
       const long double dnorm2 = (long double)dir[0] * dir[0] + (long double)dir[1] * dir[1] +
                                  (long double)dir[2] * dir[2];
       const long double dnorm = std::sqrt(dnorm2);
+      // propagate / compute_optical_depth must not touch any counter
+      if (mode != 0 && !visit_log.empty())
+        bad << " counters-touched-without-interaction";
       // (e) estimators: exactly what the code is documented to add, nothing elsewhere, one
       // visit per cell
       for (int_fast32_t c = 0; c < ntot; ++c) {
@@ -237,7 +256,7 @@ int main() {
           bad << " estimator-increment-not-weight*sigma*path(cell=" << c << ")";
       }
       // reference: chord of the ray start + t*dir (t >= 0) in every cell, slab method
-      int_fast32_t first_cell = visit_log.empty() ? -1 : visit_log[0].cell;
+      int_fast32_t first_cell = mode != 0 ? start_cell_nopin : (visit_log.empty() ? -1 : visit_log[0].cell);
       int_fast32_t first_idx[3] = {0, 0, 0};
       if (first_cell >= 0) {
         first_idx[0] = first_cell / (nc[1] * nc[2]);
@@ -261,11 +280,22 @@ int main() {
         tau_dep += kappa[c] * (long double)path[c];
         psum += path[c];
       }
+      if (mode != 0) {
+        // no visits to read the path from: the distance travelled follows from the positions
+        // (axis with the largest direction component)
+        int am = 0;
+        for (int a = 1; a < 3; ++a)
+          if (std::fabs(dir[a]) > std::fabs(dir[am]))
+            am = a;
+        psum = (((long double)pf[am] - (long double)box[am]) - s0[am]) / dir[am];
+      }
       // nominal ray (k = 0) and 6 rays whose start is displaced by +-1e-9 cell sizes along one
       // axis: a ray that runs within round-off of a cell wall over a finite length (start on a
       // wall, tiny direction component) may legitimately be attributed to either neighbour
       const int NRAY = exact ? 1 : 7;
       std::vector< std::vector< long double > > chord(NRAY, std::vector< long double >(ntot, 0.));
+      // optical depth of the part [0, psum] of each reference ray (propagate: what was used up)
+      long double tpart[7] = {0., 0., 0., 0., 0., 0., 0.};
       long double tfull[7] = {0., 0., 0., 0., 0., 0., 0.};
       long double tcellmax = 0.;
       for (int k = 0; k < NRAY; ++k) {
@@ -303,6 +333,8 @@ int main() {
               const int_fast32_t c = ix * nc[1] * nc[2] + iy * nc[2] + iz;
               chord[k][c] = (empty || tout <= tin) ? 0. : tout - tin;
               tfull[k] += kappa[c] * chord[k][c];
+              if (!(empty || tout <= tin))
+                tpart[k] += kappa[c] * std::max(0.L, std::min(tout, psum) - tin);
               tcellmax = std::max(tcellmax, kappa[c] * chord[k][c]);
             }
       }
@@ -336,11 +368,44 @@ int main() {
           bad << " path-sum-differs-from-distance";
       }
       // (b) optical depth bookkeeping, (c) stop-inside iff the target is reached on the line
-      const bool inside = out == TRAVELDIRECTION_INSIDE;
+      const bool inside = mode != 2 && out == TRAVELDIRECTION_INSIDE;
+      long double kmax = 0.;
+      for (int_fast32_t c = 0; c < ntot; ++c)
+        kmax = std::max(kmax, kappa[c]);
+      if (mode == 1) {
+        // no per-cell record: the optical depth used up is that of the reference ray up to the
+        // distance travelled (nearest of the reference rays)
+        long double best = tpart[0];
+        const long double want = inside ? (long double)tau_target : (long double)tau_target - tau_left;
+        for (int k = 1; k < NRAY; ++k)
+          if (std::fabs((double)(tpart[k] - want)) < std::fabs((double)(best - want)))
+            best = tpart[k];
+        tau_dep = best;
+        if (!((double)psum >= (exact ? 0. : -(double)ltol)))
+          bad << " negative-path";
+      }
       // the surplus correction computes 1 - (tau_done - tau_target)/tau: its rounding error is
       // 1e-16 of the optical depth of the last CELL, not of the target
-      const long double ttol = 1.e-9L * (tau_target + tcellmax);
-      if (inside) {
+      // (propagate: the optical depth used up is reconstructed from the distance travelled,
+      // which is known to ltol only)
+      const long double ttol = 1.e-9L * (tau_target + tcellmax) + (mode == 1 ? kmax * ltol : 0.L);
+      if (mode == 2 && out == TRAVELDIRECTION_INSIDE)
+        bad << " whole-line-walk-ends-inside";
+      if (mode == 2) {
+        // compute_optical_depth: what was added is the optical depth of the whole line
+        const long double added = (long double)tau_left - (long double)tau_target;
+        bool ok = false;
+        for (int k = 0; k < NRAY; ++k)
+          ok = ok || std::fabs((double)(added - tfull[k])) <=
+                         1.e-9 * (double)(tfull[k] + tcellmax) + 1.e-14 * tau_target // (old + added rounds)
+                             + (double)(kmax * ltol); // (a path is known to ltol only)
+        if (!ok)
+          bad << " added-optical-depth-differs-from-line-integral";
+        if (!((double)psum >= (exact ? 0. : -(double)ltol)))
+          bad << " negative-path";
+      }
+      if (mode == 2) {
+      } else if (inside) {
         if (std::fabs((double)(tau_dep - tau_target)) > ttol)
           bad << " stopped-but-deposited-optical-depth-differs-from-target";
         if (!(tau_left <= 0.))
@@ -350,7 +415,7 @@ int main() {
           reached = reached || !(tfull[k] < tau_target - ttol - 1.e-9L * tfull[k]);
         if (!reached)
           bad << " stopped-before-target-reached";
-        for (int_fast32_t c = 0; c < ntot; ++c) {
+        for (int_fast32_t c = 0; mode == 0 && c < ntot; ++c) {
           bool ok = false;
           for (int k = 0; k < NRAY; ++k)
             ok = ok || !((long double)path[c] > chord[k][c] + ltol);
@@ -358,7 +423,8 @@ int main() {
             bad << " path-longer-than-chord(cell=" << c << ")";
         }
       } else {
-        if (std::fabs((double)((tau_target - tau_left) - tau_dep)) > 1.e-10 * tau_target)
+        if (std::fabs((double)((tau_target - tau_left) - tau_dep)) >
+            (mode == 0 ? 1.e-10 * tau_target : (double)ttol))
           bad << " optical-depth-used-differs-from-sum";
         if (!(tau_left > 0.))
           bad << " left-with-nonpositive-remaining-optical-depth";
@@ -367,13 +433,15 @@ int main() {
           notreached = notreached || !(tfull[k] > tau_target + ttol + 1.e-9L * tfull[k]);
         if (!notreached)
           bad << " left-although-target-reached";
-        for (int_fast32_t c = 0; c < ntot; ++c) {
+        for (int_fast32_t c = 0; mode == 0 && c < ntot; ++c) {
           bool ok = false;
           for (int k = 0; k < NRAY; ++k)
             ok = ok || !(std::fabs((double)((long double)path[c] - chord[k][c])) > ltol);
           if (!ok)
             bad << " path-differs-from-chord(cell=" << c << ")";
         }
+      }
+      if (!inside) {
         // (d) exit: on the block boundary, on exactly the faces named, compatible with dir
         // reference: parameter at which the line crosses the block boundary on each axis
         long double tb[3], tstar = 1.e300L;
